@@ -60,6 +60,13 @@ pub struct Qcow2Dev<T> {
     zero_failed: std::sync::Mutex<std::collections::HashSet<u64>>,
     flush_lock: AsyncMutex<()>,
 
+    // read_at() / write_at() hold it shared, discard() exclusively: a
+    // discard releases host clusters, which must not happen while a read
+    // or a write of the same guest range still has a data request in
+    // flight (the cluster could be handed out again and the late request
+    // would hit somebody else's data)
+    io_lock: AsyncRwLock<()>,
+
     file: T,
     backing_file: Option<Box<Qcow2Dev<T>>>,
     pub info: Qcow2Info,
@@ -129,6 +136,7 @@ impl<T: Qcow2IoOps> Qcow2Dev<T> {
             unsynced: AtomicBool::new(false),
             zero_failed: Default::default(),
             flush_lock: AsyncMutex::new(()),
+            io_lock: AsyncRwLock::new(()),
         };
 
         Ok(dev)
